@@ -79,7 +79,7 @@ std::map<pMPI::JobId, pMPI::WorkerId> mpi_skel<WrapType>::run(const boost::mpi::
     };
     // at this moment all communication is finished
     //comm.barrier();
-    MPI_Barrier(MPI_COMM_WORLD);
+    comm.barrier();
     // Now spread the information, who did what.
 	if (VerboseOutput && rank==ROOT) std::cout << "done." << std::endl;
     comm.barrier();
